@@ -461,8 +461,28 @@ def fam_keepalive_schedules(rng, tier):
     return out
 
 
+def fam_keepalive_line_preempt(rng, tier):
+    """C16: the ping thread preempting the reading loop at every source line of check() (the function that compares the
+    ping / pong stamps), at instants where a ping is due exactly when traffic makes the loop run check()."""
+    out = []
+    bases = []
+    for I, T, lat in ((3, 1, 0), (3, 1, 500), (4, 2, 1000), (2, 1, 0)):
+        # a data frame at exactly the time of the 2nd / 3rd ping: the loop wakes up and runs check() while the ping is due
+        for k in (2, 3):
+            bases.append({"conns": [{"events": [[k * I * 1000, ["text", "d"]], [I * 1000, ["binary", [1]]]], "pong": lat}],
+                          "run": {"ping_interval": I, "ping_timeout": T}, "horizon": (k + 3) * I * 1000 + 500,
+                          "line_preempt_to": "ping", "lp_func": "check"})
+    for bi, base in enumerate(bases):
+        log, _ = appworld.run_app(dict(base, line_preempt=10 ** 9))
+        total = [e for e in log if e["ev"] == "lines_total"][0]["n"]
+        for k in range(1, total + 1):
+            out.append(dict(base, tid="klp%d_%d" % (bi, k), line_preempt=k, kind="line_preempt_ping"))
+    return out
+
+
 FAMILIES = {"C13": [("delivery", fam_delivery)], "C14": [("endings", fam_endings), ("line_preemption", fam_line_preempt)], "C15": [("reconnect", fam_reconnect), ("line_preemption_reconnect", lambda rng, tier: [x for x in fam_line_preempt(rng, tier) if x["tid"].startswith("lp2_")])],
-            "C16": [("keepalive", fam_keepalive), ("ping_thread_interleavings", fam_keepalive_schedules)]}
+            "C16": [("keepalive", fam_keepalive), ("ping_thread_interleavings", fam_keepalive_schedules),
+                    ("ping_thread_preempts_check", fam_keepalive_line_preempt)]}
 
 
 def fam_common(rng, tier):
